@@ -120,7 +120,8 @@ func bodyHasData(kids []*gen.SNode, data []*gen.DNode) bool {
 				}
 			}
 		default:
-			if d.Leaf != nil || d.Present || len(d.Rows) > 0 {
+			// a list holds data when it has entries (a list that was created and lost its entries again does not)
+			if d.Leaf != nil || (k.Kind != "list" && d.Present) || len(d.Rows) > 0 {
 				return true
 			}
 		}
